@@ -504,6 +504,21 @@ theorem c04_barrier {s s' : QState} {ev : Ev} {i : Nat} (hr : Reachable s) (hcap
         simp only [pend, inflight, List.mem_filter]; exact ⟨h1, by simpa using hlt⟩
       rw [hzero] at this; simp at this
 
+/-- **Trace specification (T-trace).** The executable barrier predicate the driver evaluates at every
+completion observed in a real multi-threaded run holds in the model at every live completion: with
+`before` = the entries pushed before the request, `lost` = the displaced entries, and `calls` = the
+history up to and including the flush of the completing step. -/
+theorem c04_spec_accepts {s s' : QState} {ev : Ev} {i : Nat} (hr : Reachable s) (hcap : 0 < s.cap)
+    (h : step s ev = some s') (hnew : Obs.completed i true ∈ s'.log.drop s.log.length) :
+    Spec.barrierAt (s.pushOrder.take (markOf s i)) (displaced s.log) (s.log ++ [Obs.flush]) = true := by
+  obtain ⟨hb, _⟩ := c04_barrier hr hcap h hnew
+  simp only [Spec.barrierAt, Bool.and_eq_true, List.all_eq_true, List.reverse_append, List.reverse_cons,
+    List.reverse_nil, List.nil_append, List.singleton_append, Spec.flushedAfter, and_true]
+  intro e he
+  have hd : delivered (s.log ++ [Obs.flush]) = delivered s.log := by simp [delivered]
+  rw [hd]
+  rcases hb e he with h1 | h1 <;> simp [h1]
+
 /-! ## Boundedness (L1 / S2): the potential function -/
 
 /-- potential of request `i`: an upper bound on the number of progressing `handle_waiting_wakers`
@@ -759,6 +774,7 @@ example : (nvFlush.map fun s => (s.ring.length, decide (s.wpc = .drain 3), s.sig
 end Queue
 
 #print axioms Queue.c04_barrier
+#print axioms Queue.c04_spec_accepts
 #print axioms Queue.c04_bounded
 #print axioms Queue.c04_bounded_loop
 #print axioms Queue.c04_after_exit_immediate
